@@ -125,6 +125,12 @@ pub fn run_c16(cx: &Ctx) -> i32 {
                             if it2.next().is_some() {
                                 return Err("iter() yields an item after nth() went past the end".into());
                             }
+                            for i in 0..c.len() {
+                                let via_nth = c.iter().nth(i).map(|m| m.map(|m| (m.start(), m.end())));
+                                if via_nth != Some(it[i]) {
+                                    return Err(format!("iter().nth({}) = {:?} but get({}) = {:?} (len() = {})", i, via_nth, i, it[i], c.len()));
+                                }
+                            }
                             let mut it3 = c.iter();
                             for _ in 0..c.len() {
                                 it3.next();
@@ -202,12 +208,14 @@ const HOSTS: &[(&str, &str, &str)] = &[
     ("□[xy](?=)", "", "[xy](?=)"),
     ("(?<=□)x", "(?<=", ")x"),
     ("(?i:x)□(?!y)", "(?i:x)", "(?!y)"),
+    // a deeply nested host (a trie-shaped "any of these words" pattern nests as deep as its longest word)
+    ("(?:{40}□){40}", "(?:(?:(?:(?:(?:(?:(?:(?:(?:(?:(?:(?:(?:(?:(?:(?:(?:(?:(?:(?:(?:(?:(?:(?:(?:(?:(?:(?:(?:(?:(?:(?:(?:(?:(?:(?:(?:(?:(?:(?:", "))))))))))))))))))))))))))))))))))))))))"),
 ];
 
 /// where the literal host would match: same search written with str::find
 fn host_expected(host: &str, s: &str, text: &str) -> Option<(usize, usize)> {
     match host {
-        "□" | "(?=)□" | "(?>□)" => text.find(s).map(|i| (i, i + s.len())),
+        "□" | "(?=)□" | "(?>□)" | "(?:{40}□){40}" => text.find(s).map(|i| (i, i + s.len())),
         "x□y" => {
             let lit = format!("x{}y", s);
             text.find(&lit).map(|i| (i, i + lit.len()))
@@ -264,7 +272,7 @@ fn host_expected(host: &str, s: &str, text: &str) -> Option<(usize, usize)> {
 pub fn run_c17(cx: &Ctx) -> i32 {
     let meta: Vec<char> = "\\.+*?()|[]{}^$#".chars().collect();
     let mut alphabet = meta.clone();
-    alphabet.extend(['a', '0', ' ', '\t', 'é', '€', '😀', '-', '&', '~', 'à', '\u{a0}']);
+    alphabet.extend(['a', '0', ' ', '\t', 'é', '€', '😀', '-', '&', '~', 'à', '\u{a0}', '\u{8}', '\u{7}', '\u{b}', '\u{1b}', '\u{0}']);
     let max_len = if cx.quick() { 3 } else { 5 };
     let mut strings = space::texts(&alphabet, max_len);
     // long strings: an ASCII stretch of every length up to 70, a multi-byte character, then special
@@ -368,7 +376,7 @@ pub fn run_c17(cx: &Ctx) -> i32 {
         t,
         Finish {
             rule: format!(
-                "all {} strings: every string of length <= {} over the 15 regex meta-characters plus [a,0,space,tab,e-acute,euro,emoji,-,&,~,a-grave (its UTF-8 ends in the byte A0),no-break space], and 1 065 long strings (an ASCII stretch of every length 0..70, a multi-byte character, special characters); each escaped string alone and embedded in the hosts {:?}; texts: s, s doubled, x+s+y for x in ['',a,\\,x,e-acute] and y in ['',a,$,y], s with one character dropped (bare and inside x..y); oracle: Regex::new(escape(s)) compiles, find span == str::find span of the literal the host spells, Cow::Borrowed iff s has no special character; non-trivial = found occurrences of strings that needed escaping",
+                "all {} strings: every string of length <= {} over the 15 regex meta-characters plus [a,0,space,tab,e-acute,euro,emoji,-,&,~,a-grave (its UTF-8 ends in the byte A0),no-break space,backspace,bell,vertical tab,escape,NUL], and 1 065 long strings (an ASCII stretch of every length 0..70, a multi-byte character, special characters); each escaped string alone and embedded in the hosts {:?}; texts: s, s doubled, x+s+y for x in ['',a,\\,x,e-acute] and y in ['',a,$,y], s with one character dropped (bare and inside x..y); oracle: Regex::new(escape(s)) compiles, find span == str::find span of the literal the host spells, Cow::Borrowed iff s has no special character; non-trivial = found occurrences of strings that needed escaping",
                 total, max_len, HOSTS.iter().map(|h| h.0).collect::<Vec<_>>()
             ),
             exhaustive: true,
